@@ -58,6 +58,8 @@ def body_prune(cube, **kw):
         for j in range(n):
             if kw['e%d%d' % (i, j)]:
                 link(nodes[i], nodes[j])
+                if kw.get('dbl', False):
+                    link(nodes[i], nodes[j])        # parallel edge (two reaches expressions hitting the same target)
     return _prune_and_check(g, nodes, types, flags, seen_ids, seen_names)
 
 
@@ -93,16 +95,16 @@ def queries(tier):
 
     def mk(name, n, tset, maxe, timeout):
         ebits = ['e%d%d' % (i, j) for i in range(n) for j in range(n)]
-        params = [B('v%d' % i) for i in range(n)] + [B('c%d' % i) for i in range(n)] + [B(e) for e in ebits]
+        params = [B('v%d' % i) for i in range(n)] + [B('c%d' % i) for i in range(n)] + [B(e) for e in ebits] + [B('dbl')]
         cubes = [{'n': n, 'types': list(ts)} for ts in itertools.product(tset, repeat=n)]
         wit = dict({p.name: False for p in params})
         wit.update({'e01': True, 'e12': True})
         return Query(
             name=name, body=body_prune, params=params, cubes=cubes,
-            pre=['%s <= %d' % (' + '.join(ebits), maxe)], timeout=timeout,
+            pre=['%s <= %d' % (' + '.join(ebits), maxe), 'not dbl or %s >= 1' % ' + '.join(ebits)], timeout=timeout,
             witnesses=[({'n': n, 'types': ['or', 'and', 'or', 'defense'][:n]}, wit)],
             bound='%d nodes, every type vector over %s (one cube each), symbolic viability/necessity flags, '
-                  'every edge set with <= %d edges incl. self-loops' % (n, tset, maxe))
+                  'every edge set with <= %d edges incl. self-loops, each edge single or doubled (parallel edges)' % (n, tset, maxe))
     if tier == 'quick':
         qs.append(mk('prune3', 3, T3, 1, 240))
     else:
